@@ -14,11 +14,11 @@ assign to them or call methods on them, and the fields of the property's struct 
 a pure function of the arguments and of these fields; a new variable, writer or field is state the
 model does not know of. The digest-valued `shape:` entry covers everything the call graph
 (resolved by go/types) reaches from the functions declared in the property's anchor files: per
-function, method (with receiver kind), package variable and constant, its numeric literals, the
+function, method (with receiver kind), package variable and constant, its numeric literals, its comparison operators, the
 package variables it reads and its writes through parameters or the receiver (including in-place
 `sort.*`/`copy`/`append`). The entries behind the digest are in `shape_expected.txt` and in a
 comment of the generated file. -/
-def stateC08 : List (String × String) := [("globals:mathx", "nan smallFact"), ("globalwrites:mathx", ""), ("shape:C08", "n=16 fnv64a=710ae41fb948cfca")]
+def stateC08 : List (String × String) := [("globals:mathx", "nan smallFact"), ("globalwrites:mathx", ""), ("shape:C08", "n=16 fnv64a=a72e5871399fc7af")]
 
 /-- the source has exactly the package-level variables, writers and struct fields the model accounts for -/
 theorem state_C08 : holdsAll stateC08 = true := by decide +kernel
